@@ -24,7 +24,7 @@ SPEC = {
             'foreign-chain / out-of-range message (with and without re-committed root), token data short / long / nil, codec '
             'error, widened and full uint64 range. Every produced chain report is re-verified in Go with '
             'merklemulti.VerifyComputeRoot (flag bits decoded from ProofFlagBits) against the committed root and again in Coq. '
-            'The two F14 witnesses are cases 0 and 1. mm: merklemulti NewTree/Prove/VerifyComputeRoot over an arithmetic '
+            'Cases 0 and 1 are the F14 inputs (too-costly one: repaired by F14a, must report nonce 1 only; size-fallback one: recorded class). mm: merklemulti NewTree/Prove/VerifyComputeRoot over an arithmetic '
             'commutative hash, 1-33 (and 255-300) leaves, index sets all/single/subset/empty/unsorted/duplicate/out-of-range, '
             'and proofs mutated before verification. sel: execute.selectReport with a scripted builder. '
             'non-trivial = at least one chain report built (add), non-empty index set (mm), at least one commit report (sel); '
@@ -44,11 +44,13 @@ SPEC = {
                   'necessity; full specification of one Add (membership, eligibility, token-data alignment, limits, executed '
                   'bookkeeping), no report from commit data that does not reproduce its root, re-verification of every '
                   'appended report to the committed root, budget invariant and outcome-level limits for selectReport; nonce '
-                  'order refuted twice (F14) and proved outside the recorded class. Correspondence: real builder, real '
+                  'order proved outside the recorded class (fallback drops a sequenced message), refuted inside it, and refuted '
+                  'for the pre-repair check order. Correspondence: real builder, real '
                   'merklemulti and real selectReport run against the model on generated inputs every run',
     'level_note': 'Trusted: Coq kernel, hand-written model, differential harness; hash / hasher / codec / estimator are oracles. '
-                  'The nonce-order clause is false of the code (F14, recorded): C08_nonce_order_refuted(+_fallback), '
-                  'C08_nonce_order_except_known. No axioms.',
+                  'Nonce order: the too-costly half of F14 is repaired (F14a, C08_nonce_order_costly_unfixed_refuted about the old '
+                  'order); the size/gas-fallback half is still false of the code and recorded (C08_nonce_order_refuted, '
+                  'C08_nonce_order_except_known with hypothesis fallback_drop = false). No axioms.',
     'modelled': 'merklemulti NewTree/Prove/VerifyComputeRoot, slicelib BoolsToBitFlags/BitFlagsToBools, ConstructMerkleTree, '
                 'checkMessage/checkMessageNonce, buildSingleChainReportHelper, verifyReport, buildSingleChainReport (greedy '
                 'fallback), builder Add/Build, markNewMessagesExecuted, selectReport; Timestamp/BlockNum of CommitData and '
